@@ -363,3 +363,19 @@ class PyFunc(object):
 
     def __repr__(self):
         return '<pyfunc %s>' % self.name
+
+
+class HRat(object):
+    """hashable wrapper of a symbolic Rat (set element / dict key): identity is the normal form"""
+
+    def __init__(self, r):
+        self.r = r
+
+    def __hash__(self):
+        return hash(self.r.key())
+
+    def __eq__(self, o):
+        return isinstance(o, HRat) and self.r.key() == o.r.key()
+
+    def __repr__(self):
+        return 'HRat(%s)' % self.r.key()
